@@ -9,9 +9,9 @@ package main
 // match (Fn, calleeName, Name) sees it under the name the rules use.
 
 import (
-	"sort"
-	"regexp"
 	"go/types"
+	"regexp"
+	"sort"
 	"strings"
 
 	"golang.org/x/tools/go/ssa"
@@ -312,7 +312,6 @@ func roleFieldName(t types.Type, name string) string {
 	}
 	return name
 }
-
 
 // ---------------------------------------------------------------- named types
 
